@@ -16,160 +16,22 @@ What is proved here (all for the abstract RW-lock discipline model `Verif.Model.
 The tie to the Go code is the regenerated table (T2) plus the supporting race-detector / porcupine runs of the Go
 suite `c16`. Not modelled: the Go memory model at instruction level. See notes/C16.md.
 -/
-import Verif.Gen.LockFacts
-import Verif.Lemmas.RWDiscipline
+import Verif.Lemmas.LockTable
 
 namespace Verif.Props.C16
-open Verif.RW Verif.Gen.LockFacts
+open Verif.RW Verif.Gen.LockFacts Verif.LockTable
 
-/-! ## from the generated table to the model's footprint -/
+/-! ## the discipline
 
-def modeOf : LockMode → Option Mode
-  | .read => some .R
-  | .write => some .W
-  | _ => none
-
-def isWriteKind : AccKind → Bool
-  | .read | .atomicLoad => false
-  | _ => true
-
-def isAtomicKind : AccKind → Bool
-  | .atomicLoad | .atomicStore => true
-  | _ => false
-
-/-- Locations: field `i` of the receiver is location `i`; the state of the object behind field `i` (reached by a
-method call through the field) is location `1000+i`, guarded by that object's own internal lock, sub-lock
-`2000+i` (the objects are the node store, the change collector and the node cache, whose own tables are checked
-below); an atomic access to field `i` is an access under the pseudo sub-lock `3000+i`. -/
-def toFAcc (a : Access) : FAcc :=
-  match a.kind with
-  | .call => { loc := 1000 + a.fid, write := true, sub := 2000 + a.fid, held := modeOf a.mode }
-  | .innerWrite => { loc := 1000 + a.fid, write := true, sub := a.subId, held := modeOf a.mode }
-  | .atomicLoad => { loc := a.fid, write := false, sub := 3000 + a.fid, held := modeOf a.mode }
-  | .atomicStore => { loc := a.fid, write := true, sub := 3000 + a.fid, held := modeOf a.mode }
-  | k => { loc := a.fid, write := isWriteKind k, sub := a.subId, held := modeOf a.mode }
-
-def footprint (tbl : List Method) : List FAcc := tbl.flatMap (fun m => m.accesses.map toFAcc)
-
-/-- no access of the table writes location `l` -/
-def frozenL (fp : List FAcc) (l : Nat) : Bool := fp.all (fun x => x.loc != l || !x.write)
-
-/-- every access of the table to location `l` is under sub-lock `s` -/
-def sameSub (fp : List FAcc) (l s : Nat) : Bool := fp.all (fun x => x.loc != l || x.sub == s)
-
-def locked (a : Access) : Bool := a.mode == .read || a.mode == .write
-
-/-- (0) the extractor recognised the method: lock shape known, the lock is not re-acquired while held, one call
-enters at most one critical section, every access classified -/
-def shapeOK (m : Method) : Bool :=
-  (m.lock == .read || m.lock == .write || m.lock == .none) && !m.reentrant && m.sections ≤ 1 &&
-  m.accesses.all (fun a => a.kind != .unknown && a.fid != 0)
-
-/-- (1) the method holds its lock for its whole body: whatever its own goroutine touches without the lock is a
-read of a field nobody writes, or an atomic access to a field that is accessed atomically only -/
-def wholeBody (fp : List FAcc) (m : Method) : Bool :=
-  m.accesses.all (fun a => a.goroutine != 0 || locked a ||
-    (!(toFAcc a).write && frozenL fp (toFAcc a).loc) ||
-    (isAtomicKind a.kind && (toFAcc a).sub != 0 && sameSub fp (toFAcc a).loc (toFAcc a).sub))
-
-/-- (2) every location written while the lock is not held in W mode is protected by its own sub-lock, in all
-its writes and all its reads -/
-def subProtected (fp : List FAcc) (m : Method) : Bool :=
-  m.accesses.all (fun a => !(toFAcc a).write || a.mode == .write ||
-    ((toFAcc a).sub != 0 && sameSub fp (toFAcc a).loc (toFAcc a).sub))
-
-/-- (3) a goroutine spawned by the method may outlive the body (and the lock): it touches receiver state only
-by reading fields nobody writes -/
-def noEscape (fp : List FAcc) (m : Method) : Bool :=
-  m.accesses.all (fun a => a.goroutine == 0 || (!(toFAcc a).write && frozenL fp (toFAcc a).loc))
-
-def tableOK (tbl : List Method) : Bool :=
-  tbl.all (fun m => shapeOK m && wholeBody (footprint tbl) m && subProtected (footprint tbl) m && noEscape (footprint tbl) m)
-
-/-- the lock discipline of a method table -/
-def TableOK (tbl : List Method) : Prop := tableOK tbl = true
-
-instance (tbl : List Method) : Decidable (TableOK tbl) := inferInstanceAs (Decidable (tableOK tbl = true))
-
-/-! ## TableOK ⇒ lockset discipline of the footprint -/
-
-theorem toFAcc_held (a : Access) : (toFAcc a).held = modeOf a.mode := by
-  unfold toFAcc; cases a.kind <;> rfl
-
-theorem frozenL_spec {fp : List FAcc} {l : Nat} (h : frozenL fp l = true) : ∀ x, x ∈ fp → x.loc = l → x.write = false := by
-  intro x hx hl
-  have := (List.all_eq_true.1 h) x hx
-  simp [hl] at this; exact this
-
-theorem sameSub_spec {fp : List FAcc} {l s : Nat} (h : sameSub fp l s = true) : ∀ x, x ∈ fp → x.loc = l → x.sub = s := by
-  intro x hx hl
-  have := (List.all_eq_true.1 h) x hx
-  simp [hl] at this; exact this
-
-theorem mem_footprint {tbl : List Method} {f : FAcc} (h : f ∈ footprint tbl) :
-    ∃ m, m ∈ tbl ∧ ∃ a, a ∈ m.accesses ∧ toFAcc a = f := by
-  simp only [footprint, List.mem_flatMap, List.mem_map] at h
-  exact h
-
-/-- the two facts about a footprint that the lockset discipline needs -/
-structure FpOK (fp : List FAcc) : Prop where
-  unlocked : ∀ a, a ∈ fp → a.held = none →
-    (a.write = false ∧ ∀ x, x ∈ fp → x.loc = a.loc → x.write = false) ∨ (a.sub ≠ 0 ∧ ∀ x, x ∈ fp → x.loc = a.loc → x.sub = a.sub)
-  subProt : ∀ a, a ∈ fp → a.write = true → a.held ≠ some .W → a.sub ≠ 0 ∧ ∀ x, x ∈ fp → x.loc = a.loc → x.sub = a.sub
-
-theorem fpOK_of_tableOK {tbl : List Method} (h : TableOK tbl) : FpOK (footprint tbl) := by
-  have hall := List.all_eq_true.1 h
-  constructor
-  · intro f hf hheld
-    obtain ⟨m, hm, a, ha, rfl⟩ := mem_footprint hf
-    have hmOK := hall m hm
-    simp only [Bool.and_eq_true] at hmOK
-    obtain ⟨⟨⟨_, hwb⟩, hsp⟩, hne⟩ := hmOK
-    have hnl : locked a = false := by
-      rw [toFAcc_held] at hheld
-      unfold locked
-      cases hmode : a.mode <;> simp_all [modeOf]
-    by_cases hg : a.goroutine = 0
-    · have := (List.all_eq_true.1 hwb) a ha
-      simp only [hnl, hg, Bool.or_eq_true, Bool.and_eq_true, bne_iff_ne, ne_eq, not_true_eq_false,
-        Bool.false_eq_true, false_or, Bool.not_eq_true'] at this
-      rcases this with ⟨h1, h2⟩ | ⟨⟨_, h1⟩, h2⟩
-      · exact .inl ⟨h1, frozenL_spec h2⟩
-      · exact .inr ⟨h1, sameSub_spec h2⟩
-    · have := (List.all_eq_true.1 hne) a ha
-      simp only [Bool.or_eq_true, beq_iff_eq, hg, false_or, Bool.and_eq_true, Bool.not_eq_true'] at this
-      exact .inl ⟨this.1, frozenL_spec this.2⟩
-  · intro f hf hw hnW
-    obtain ⟨m, hm, a, ha, rfl⟩ := mem_footprint hf
-    have hmOK := hall m hm
-    simp only [Bool.and_eq_true] at hmOK
-    obtain ⟨⟨⟨_, _⟩, hsp⟩, _⟩ := hmOK
-    have hmw : (a.mode == LockMode.write) = false := by
-      rw [toFAcc_held] at hnW
-      cases hmode : a.mode <;> simp_all [modeOf]
-    have := (List.all_eq_true.1 hsp) a ha
-    simp only [hw, hmw, Bool.not_true, Bool.false_or, Bool.and_eq_true, bne_iff_ne, ne_eq] at this
-    exact ⟨this.1, sameSub_spec this.2⟩
-
-theorem lockset_of_fpOK {fp : List FAcc} (h : FpOK fp) : LocksetOK fp := by
-  intro a ha b hb hloc hw
-  -- it suffices to treat "a writes"; the other case is symmetric
-  have key : ∀ a b : FAcc, a ∈ fp → b ∈ fp → a.loc = b.loc → a.write = true → Protected a b := by
-    intro a b ha hb hloc hwa
-    by_cases haW : a.held = some .W
-    · by_cases hbn : b.held = none
-      · rcases h.unlocked b hb hbn with ⟨_, hfz⟩ | ⟨hs, hss⟩
-        · have := hfz a ha hloc; rw [hwa] at this; cases this
-        · exact .inr (.inr ⟨by rw [hss a ha hloc]; exact hs, hss a ha hloc⟩)
-      · exact .inl ⟨haW, hbn⟩
-    · obtain ⟨hs, hss⟩ := h.subProt a ha hwa haW
-      exact .inr (.inr ⟨hs, (hss b hb hloc.symm).symm⟩)
-  rcases hw with hwa | hwb
-  · exact key a b ha hb hloc hwa
-  · rcases key b a hb ha hloc.symm hwb with h1 | h1 | ⟨h1, h2⟩
-    · exact .inr (.inl h1)
-    · exact .inl h1
-    · exact .inr (.inr ⟨by rw [← h2]; exact h1, h2.symm⟩)
+`TableOK tbl` (defined in `Verif.Model.LockTable`, decidable) is the conjunction, over every method of the table, of
+(0) `shapeOK`: lock shape recognised, lock never re-acquired while held, at most one critical section per call,
+    every access classified;
+(1) `wholeBody`: the method holds its lock for its whole body — whatever its own goroutine touches without the
+    lock is a read of a field nobody writes, or an atomic access to a field accessed atomically only;
+(2) `subProtected`: every location written while the lock is not held in W mode (in particular everything an
+    R-mode method writes) is protected by its own sub-lock in all its writes and all its reads;
+(3) `noEscape`: a goroutine spawned by the method, which may outlive the body, touches receiver state only by
+    reading fields nobody writes. -/
 
 /-! ## the two model theorems -/
 
@@ -186,22 +48,6 @@ theorem no_conflict (tbl : List Method) (h : TableOK tbl)
   rintro c ⟨s, ex⟩
   exact ((SafeInv.init hconf).exec ex).no_race (lockset_of_fpOK (fpOK_of_tableOK h))
 
-/-- bookkeeping locations of a footprint: those written while the main lock is not held in W mode (for the trie:
-the missing-node key list and the internally locked node cache / store / collector objects) -/
-def bkOf (fp : List FAcc) : Loc → Prop := fun l => ∃ a, a ∈ fp ∧ a.loc = l ∧ a.write = true ∧ a.held ≠ some .W
-
-theorem writesOnly_of_conf {fp : List FAcc} (k : Prog V ρ) : Conf fp (some .R) k → BodyOK k → WritesOnly (bkOf fp) k := by
-  induction k with
-  | ret r => intro _ hb; simp only [BodyOK] at hb
-  | rd l s k ih => intro hc hb; simp only [Conf] at hc; simp only [BodyOK] at hb; simp only [WritesOnly]; exact fun v => ih v (hc.2 v) (hb v)
-  | wr l s v k ih =>
-    intro hc hb; simp only [Conf] at hc; simp only [BodyOK] at hb; simp only [WritesOnly]
-    exact ⟨⟨_, hc.1, rfl, rfl, by simp⟩, ih hc.2 hb⟩
-  | acq m k ih => intro _ hb; simp only [BodyOK] at hb
-  | rel k ih =>
-    intro _ hb; simp only [BodyOK] at hb
-    obtain ⟨r, rfl⟩ := hb
-    simp only [WritesOnly]
 
 /-- **Linearizability in the model.** Scripts of operations that conform to a `TableOK` table, each consisting
 of one critical section (`acq m; body; rel; ret` — what `sections = 1` and "whole body" certify for the real
